@@ -181,10 +181,13 @@ class Sim:
         rng, net, node = self.rng, self.net, self.node
         jumps = [0, 1, 5, 9, 10, 11, 19, 20, 21, 39, 40, 41, 79, 80, 81, 100, 160, 320, 640, 1279, 1280, 1799, 1800, 1801, 7200]
         greeted = set()
+        # some sequences run on a slow clock (seconds, not minutes, between events): windows shorter than the first
+        # back-off step (10 s) are then full of events
+        slow = rng.random() < 0.4
         for n in range(nevents):
             r = rng.random()
             if r < 0.40:
-                dt = rng.choice(jumps)
+                dt = rng.choice([0, 1, 1, 2, 3, 4, 9, 10, 11]) if slow else rng.choice(jumps)
                 net.clock.t += dt
                 self.ev("step", dt)
                 net.do_step(node)
@@ -247,8 +250,12 @@ class Sim:
                     ms = self.wire.ms
                     peers = []
                     for _ in range(rng.randint(1, 4)):
-                        kind = rng.choice(["known", "unknown", "own", "ipv6", "connected"])
-                        if kind == "known":
+                        kind = rng.choice(["known", "unknown", "own", "ipv6", "connected", "waiting"])
+                        waiting = [k for k in self.nm.disconnected_peers if k[2] == "OUTGOING"]
+                        if kind == "waiting" and waiting:
+                            k = rng.choice(sorted(waiting, key=str))       # an address currently waiting for reconnection
+                            h, p = k[0], k[1]
+                        elif kind == "known" or kind == "waiting":
                             h, p = rng.choice(self.addrs)
                         elif kind == "unknown":
                             h, p = "10.3.%d.%d" % (rng.randrange(2), rng.randrange(1, 4)), 2412
@@ -324,6 +331,59 @@ class Sim:
                 a.inc("real_self_connections_attempted")
 
 
+SMALL_EVENTS = ["step+1", "step+4", "step+10", "greet-A", "close-A", "B-announces-A", "incoming-from-A", "toggle-refuse-A"]
+
+
+def lane_small_scope(a, spec, length):
+    """EVERY sequence of `length` events from SMALL_EVENTS on one address A (helper peer B stays connected and greeted to
+    carry announcements), on a clock that moves in seconds: all interleavings of reconnect timing with greetings, closes,
+    announcements and reverse-direction greetings inside the first back-off window"""
+    import itertools
+    rng = random.Random(7)
+    idx = 0
+    for seq in itertools.product(range(len(SMALL_EVENTS)), repeat=length):
+        idx += 1
+        if idx % spec["nshard"] != spec["shard"] % spec["nshard"]:
+            continue
+        sim = Sim(a, rng, spec["max_attempts"], idx)
+        A, B = sim.addrs[0], sim.addrs[1]
+        sim.include_self = False
+        sim.nm.disconnected_peers = sim.rp.load_peers_from_list([(A[0], A[1], "OUTGOING"), (B[0], B[1], "OUTGOING")])
+        net, node = sim.net, sim.node
+        net.do_step(node)
+        net.settle(node)
+        cb = sim.listeners[B].conn
+        cb.push(sim.wire.hello(nonce=77, my_port=B[1]))
+        net.settle(node)
+        greeted = set()
+        sim.w = {"lane": "small-scope", "sequence": [SMALL_EVENTS[e] for e in seq], "max_attempts": spec["max_attempts"]}
+        for e in seq:
+            name = SMALL_EVENTS[e]
+            ca = sim.listeners[A].conn
+            live = ca is not None and not ca.closed and not ca.peer.closed
+            if name.startswith("step+"):
+                net.clock.t += int(name[5:])
+                net.do_step(node)
+            elif name == "greet-A" and live and id(ca) not in greeted:
+                ca.push(sim.wire.hello(nonce=78, my_port=A[1]))
+                greeted.add(id(ca))
+            elif name == "close-A" and live:
+                ca.close()
+            elif name == "B-announces-A" and not cb.closed and not cb.peer.closed:
+                cb.push(sim.wire.frame(sim.wire.ms.PeersMessage([sim.wire.ms.Peer(0, IPv6Address("::FFFF:%s" % A[0]), A[1])])))
+            elif name == "incoming-from-A":
+                raw = net.raw_connect(node, src=(A[0], 50001))
+                raw.push(sim.wire.hello(nonce=79, my_port=A[1]))
+            elif name == "toggle-refuse-A":
+                (net.refuse.discard if A in net.refuse else net.refuse.add)(A)
+            net.settle(node)
+            sim.check(name)
+        sim.backoff_check()
+        a.inc("small_scope_sequences")
+        a.digests.add(digest("ss", seq))
+    a.inc("invariant_evaluations", INV_COUNT[0])
+
+
 def load_peers_file():
     try:
         with open("peers.json") as f:
@@ -349,6 +409,8 @@ def lane_events(a, spec):
     a.inc("invariant_evaluations", INV_COUNT[0])
     if INV_COUNT[0] == 0:
         a.inconclusive.append("NetworkManager invariant never evaluated")
+    INV_COUNT[0] = 0
+    lane_small_scope(a, dict(spec, nshard=12), 5 if quick else 6)
 
 
 def lane_giveup(a, spec):
@@ -563,6 +625,7 @@ def finalize(m, tier):
                    ("consecutive_failures_driven", c.get("consecutive_failures_driven", 0), 2881),
                    ("invariant_evaluations", c.get("invariant_evaluations", 0), 10000),
                    ("crash points landed", c.get("kills_landed", 0) + c.get("line_exits_landed", 0), 10),
-                   ("max_consecutive_failures_seen", c.get("max_consecutive_failures_seen", 0), 4)],
+                   ("max_consecutive_failures_seen", c.get("max_consecutive_failures_seen", 0), 4),
+                   ("small_scope_sequences", c.get("small_scope_sequences", 0), 8 ** 5)],
         "extra": {},
     }
